@@ -1081,6 +1081,14 @@ func (em *emitter) emitForRange(node *ast.ForRange) {
 		kExpr = false
 		exprReg = em.emitExpr(expr, exprType)
 	}
+	if exprType.Kind() == reflect.Array && len(vars) == 2 && !isBlankIdentifier(vars[1]) {
+		// The range expression is evaluated once before beginning the loop:
+		// the iteration values come from a copy of the array, assignments
+		// to the array in the body are not seen.
+		cp := em.fb.newRegister(reflect.Array)
+		em.changeRegister(false, exprReg, cp, exprType, exprType)
+		exprReg = cp
+	}
 
 	// The instruction OpRange knows nothing about indirect registers. So, if
 	// indirect registers are involved, declare them both as  direct and
